@@ -1,0 +1,71 @@
+//go:build verif
+
+package analyzer
+
+// Verification hooks (build tag "verif" only): export the unexported selection
+// routine and the initialisation latch of the analyzer to the external harness.
+
+import (
+	"fmt"
+
+	"github.com/go-critic/go-critic/linter"
+)
+
+// VerifFilter runs filterCheckersList on infoList under the given flag values
+// and returns the names of the checkers it keeps. Flag values are restored.
+func VerifFilter(enableAll bool, enable, disable *string, infoList []*linter.CheckerInfo) []string {
+	oldAll, oldEnable, oldDisable := flagEnableAll, flagEnable, flagDisable
+	defer func() { flagEnableAll, flagEnable, flagDisable = oldAll, oldEnable, oldDisable }()
+	flagEnableAll = enableAll
+	flagEnable = Analyzer.Flags.Lookup("enable").DefValue
+	flagDisable = Analyzer.Flags.Lookup("disable").DefValue
+	if enable != nil {
+		flagEnable = *enable
+	}
+	if disable != nil {
+		flagDisable = *disable
+	}
+	var names []string
+	for _, info := range filterCheckersList(infoList) {
+		names = append(names, info.Name)
+	}
+	return names
+}
+
+// VerifRegistered returns the names in the analyzer's registry snapshot.
+func VerifRegistered() []string {
+	var names []string
+	for _, info := range registeredCheckers {
+		names = append(names, info.Name)
+	}
+	return names
+}
+
+// VerifResetGlobal clears the cached configuration and the init-error latch.
+func VerifResetGlobal() {
+	globalGocriticMu.Lock()
+	defer globalGocriticMu.Unlock()
+	globalGocritic = nil
+	globalInitErrorReported = false
+}
+
+// VerifPrepare calls prepareGocritic and classifies its result:
+// "critic", "error:<msg>" or "nilnil".
+func VerifPrepare() string {
+	critic, err := prepareGocritic()
+	switch {
+	case err != nil:
+		return "error:" + err.Error()
+	case critic == nil:
+		return "nilnil"
+	default:
+		return fmt.Sprintf("critic:%d", len(critic.infoList))
+	}
+}
+
+// VerifLatch reports the (cached, latch) pair.
+func VerifLatch() (cached, latch bool) {
+	globalGocriticMu.Lock()
+	defer globalGocriticMu.Unlock()
+	return globalGocritic != nil, globalInitErrorReported
+}
